@@ -15,6 +15,7 @@ import (
 	"encoding/hex"
 	"fmt"
 	"math"
+	"math/big"
 	"os"
 	"strconv"
 	"strings"
@@ -213,6 +214,58 @@ func gen(seed uint64, tier string) {
 			emit(guarded.geom(r, r.Intn(5)))
 		}
 	}
+	// cross-validation of the driver's exact decimal->binary64 conversion (spec-side component)
+	// against strconv.ParseFloat on literals that are NOT shortest renderings: random digit strings,
+	// exact midpoints between adjacent doubles (ties-to-even) and their neighbours
+	nnum := 600
+	if tier == "thorough" {
+		nnum = 6000
+	}
+	for i := 0; i < nnum; i++ {
+		switch i % 3 {
+		case 0:
+			var b strings.Builder
+			if r.Bool() {
+				b.WriteString("-")
+			}
+			nd := r.Range(1, 25)
+			dot := r.Range(0, nd)
+			for j := 0; j < nd; j++ {
+				if j == dot && j > 0 {
+					b.WriteString(".")
+				}
+				b.WriteByte(byte('0' + r.Intn(10)))
+			}
+			if r.Bool() {
+				fmt.Fprintf(&b, "e%+d", r.Range(-340, 310))
+			}
+			fmt.Fprintf(out, "num %s\n", b.String())
+		default:
+			x := math.Abs(coord(r, false))
+			if i%2 == 0 {
+				x = math.Float64frombits(r.U64() & 0x7fefffffffffffff)
+			}
+			y := math.Nextafter(x, math.Inf(1))
+			if math.IsInf(y, 0) {
+				continue
+			}
+			mid := new(big.Float).SetPrec(4000).SetFloat64(x)
+			mid.Add(mid, new(big.Float).SetPrec(4000).SetFloat64(y))
+			mid.Quo(mid, big.NewFloat(2))
+			t := mid.Text('e', 1100)
+			if i%3 == 2 {
+				// nudge the last digits: just above / below the midpoint
+				k := strings.Index(t, "e")
+				d := []byte(t[:k])
+				d[len(d)-1] = byte('0' + r.Intn(10))
+				if r.Bool() {
+					d[len(d)-300] = byte('0' + r.Intn(10))
+				}
+				t = string(d) + t[k:]
+			}
+			fmt.Fprintf(out, "num %s\n", t)
+		}
+	}
 	// a few large ones
 	big := cfg{big: true}
 	for i := 0; i < 20; i++ {
@@ -294,6 +347,16 @@ func impl() {
 					res = "err"
 				} else {
 					res = "ok x" + hex.EncodeToString(buf)
+				}
+			case "num":
+				f, err := strconv.ParseFloat(p.Next(), 64)
+				if err != nil && math.IsInf(f, 0) {
+					err = nil // out of range: ParseFloat returns ±Inf with ErrRange; the driver rounds to Inf as well
+				}
+				if err != nil {
+					res = "err"
+				} else {
+					res = "ok " + vproto.F2H(f)
 				}
 			default:
 				res = "badline"
